@@ -42,6 +42,7 @@ type opIn struct {
 	T   uint64        `json:"t"`
 }
 type histIn struct {
+	LDB  string `json:"ldb"` // leveldb_type: "normal" (default) or "multi"
 	Full bool   `json:"full"`
 	KH   int    `json:"kh"`
 	Ops  []opIn `json:"ops"`
@@ -62,11 +63,11 @@ type histOut struct {
 
 var acct = types.NewAddress([]byte("verif-state-account-"))
 
-func open(dir string, full bool) (*clx.Stores, error) {
+func open(dir, kind string, full bool) (*clx.Stores, error) {
 	if full {
-		return clx.OpenFull(dir, nil, nil)
+		return clx.OpenFull(dir, kind, nil, nil)
 	}
-	return clx.OpenChain(dir)
+	return clx.OpenChain(dir, kind)
 }
 
 // one pass over the history; observe=false only learns the block hashes
@@ -76,7 +77,7 @@ func pass(h histIn, t *clx.Tables, observe bool, uh, ut []*types.Hash) (out hist
 		return out, nil, err
 	}
 	defer os.RemoveAll(dir)
-	s, err := open(dir, h.Full)
+	s, err := open(dir, h.LDB, h.Full)
 	if err != nil {
 		return out, nil, err
 	}
@@ -147,11 +148,11 @@ func pass(h histIn, t *clx.Tables, observe bool, uh, ut []*types.Hash) (out hist
 			}
 		case "o":
 			s.Close()
-			s2, err := open(dir, h.Full)
+			s2, err := open(dir, h.LDB, h.Full)
 			if err != nil {
 				// cannot continue this history: report and stop
 				out.Err = "reopen failed"
-				s, _ = clx.OpenChain(dir)
+				s, _ = clx.OpenChain(dir, h.LDB)
 				if s == nil {
 					return out, made, fmt.Errorf("reopen failed twice: %v", err)
 				}
